@@ -71,6 +71,29 @@ def op_bytes(o):
     return None
 
 
+def const_strings(o):
+    """byte strings a constant operand refers to through its pointers (fat pointers are cut to
+    their length): the operand's own bytes are not included"""
+    out = []
+
+    def walk(node_bytes, relocs):
+        for r in relocs or []:
+            if "bytes" not in r:
+                continue
+            tb = bytes.fromhex(r["bytes"])
+            off = r["off"]
+            if node_bytes is not None and off + 16 <= len(node_bytes):
+                ln = int.from_bytes(node_bytes[off + 8:off + 16], "little")
+                if 0 < ln <= len(tb):
+                    out.append(tb[:ln])
+            out.append(tb)
+            walk(tb, r.get("relocs"))
+
+    if o.get("k") == "const" and "bytes" in o:
+        walk(bytes.fromhex(o["bytes"]), o.get("relocs"))
+    return out
+
+
 class Fn:
     def __init__(self, d, crate):
         self.d = d
